@@ -332,6 +332,7 @@ type prober struct {
 	contig    [3]int64 // bytes received contiguously from offset 0 (readable)
 	read      [3]int64 // bytes the application has read
 	sparse    [3]bool  // a gap exists: no more contiguous data on this stream
+	fail      func(key, desc string)
 }
 
 var dataStreamID = [3]uint64{0, 1, 3}
@@ -467,7 +468,12 @@ func (p *prober) flushed() (recs []obsRec, retired int) {
 			retired++
 		}
 		if k >= 0 {
-			recs = append(recs, obsRec{u.App("EvGrant", advenfKindCoq[k], u.Z(v)), p.vc.EnforcedNow(k), fmt.Sprintf("%T{%d}", f, v)})
+			now := p.vc.EnforcedNow(k)
+			recs = append(recs, obsRec{u.App("EvGrant", advenfKindCoq[k], u.Z(v)), now, fmt.Sprintf("%T{%d}", f, v)})
+			// property monitor: the limit just advertised must be enforced (at least)
+			if now < v && p.fail != nil {
+				p.fail("advenf/grant-not-enforced/"+advenfKindCoq[k], fmt.Sprintf("the client sent %T with %d but enforces %d: a peer using the new credit gets an error", f, v, now))
+			}
 		}
 	}
 	return recs, retired
@@ -680,6 +686,26 @@ func genAeCfg(r *u.Rng, adv [kNum]int64) aeCfg {
 	if c.Idle < 0 {
 		c.Idle = 0
 	}
+	return c
+}
+
+// gridCfg: Config number g of the grid around the advertised values: each of
+// InitialStreamReceiveWindow (vs the largest advertised stream value), InitialConnectionReceiveWindow,
+// MaxIncomingStreams, MaxIncomingUniStreams, MaxIdleTimeout at advertised-1 / advertised / advertised+1,
+// EnableDatagrams off / on.
+func gridCfg(g int, adv [kNum]int64) aeCfg {
+	lvl := func(base int64) int64 {
+		d := int64(g%3) - 1
+		g /= 3
+		return max(base+d, 1)
+	}
+	var c aeCfg
+	c.ISW = uint64(lvl(max(adv[kSDBidiLocal], adv[kSDBidiRemote], adv[kSDUni])))
+	c.ICW = uint64(lvl(adv[kMaxData]))
+	c.MIS = lvl(adv[kStreamsBidi])
+	c.MIUS = lvl(adv[kStreamsUni])
+	c.Idle = time.Duration(lvl(adv[kIdleMs])) * time.Millisecond
+	c.DG = g%2 == 1
 	return c
 }
 
@@ -1013,11 +1039,20 @@ func runAdvEnf(w *bufio.Writer, seed uint64, n int, args []string) {
 	for _, p := range parrotNames {
 		clients = append(clients, "derived:"+p)
 	}
-	for i := 0; i < n; i++ {
+	// thorough tier: after the n drawn cases, exhaustively every built-in parrot x the grid of
+	// Configs with each field below / at / above the advertised value (3^5 x EnableDatagrams)
+	const gridPer = 3 * 3 * 3 * 3 * 3 * 2
+	total := n
+	if thorough {
+		total += gridPer * len(parrotNames)
+	}
+	for i := 0; i < total; i++ {
 		cr := r.Fork()
 		// the first len(clients) cases: every client under the default Config
 		var client string
-		if i < len(clients) {
+		if i >= n {
+			client = parrotNames[(i-n)/gridPer]
+		} else if i < len(clients) {
 			client = clients[i]
 		} else {
 			client = clients[cr.Intn(len(clients))]
@@ -1060,7 +1095,10 @@ func runAdvEnf(w *bufio.Writer, seed uint64, n int, args []string) {
 			es0, _ := parseTPs(ext0)
 			adv0, _ := advertisedOf(es0)
 			var cfg aeCfg
-			if i >= len(clients) {
+			if i >= n {
+				cfg = gridCfg((i-n)%gridPer, adv0)
+				dist["cfg=grid"]++
+			} else if i >= len(clients) {
 				cfg = genAeCfg(u.NewRng(cfgSeed), adv0)
 			}
 			desc := fmt.Sprintf("case=%d client=%s %s peerIdle=%v", i, client, cfg, peer.MaxIdleTimeout)
@@ -1173,7 +1211,8 @@ func runAdvEnf(w *bufio.Writer, seed uint64, n int, args []string) {
 				if !ok {
 					continue
 				}
-				recs, code, _ := pr.exec(e, func(key, d string) { monfail(key, d, desc) })
+				pr.fail = func(key, d string) { monfail(key, d, desc) }
+				recs, code, _ := pr.exec(e, pr.fail)
 				for _, rc := range recs {
 					obs = append(obs, u.Pair(rc.coq, u.Z(rc.code)))
 					evStrs = append(evStrs, fmt.Sprintf("%s=>%d", rc.desc, rc.code))
